@@ -53,6 +53,7 @@ import (
 	bapi "github.com/projectcalico/calico/libcalico-go/lib/backend/api"
 	"github.com/projectcalico/calico/libcalico-go/lib/backend/model"
 	"github.com/projectcalico/calico/libcalico-go/lib/ipam"
+	cnet "github.com/projectcalico/calico/libcalico-go/lib/net"
 
 	"verif/internal/casstore"
 	"verif/internal/harness"
@@ -285,10 +286,28 @@ func (w *world) userStep() {
 			return
 		}
 		n := nodes[r.Intn(len(nodes))]
+		h := "vxlan-tunnel-addr-" + n
 		if r.Intn(2) == 0 {
-			// calico-node re-creates its tunnel address: same handle, usually the same address, new sequence number
-			if err := w.cni.ReleaseByHandle(context.Background(), "vxlan-tunnel-addr-"+n); err == nil {
-				w.logf("tunnel-release %s", n)
+			// The tunnel address is released and claimed again under the same handle: same address, new
+			// sequence number (a static re-claim with AssignIP), or simply released before a new one is taken.
+			var cur []string
+			for _, a := range w.storeAllocs() {
+				if a.handle == h {
+					cur = append(cur, a.ip)
+				}
+			}
+			sort.Strings(cur)
+			if err := w.cni.ReleaseByHandle(context.Background(), h); err == nil {
+				w.logf("tunnel-release %s %v", n, cur)
+				if r.Intn(3) != 0 {
+					for _, ip := range cur {
+						hh := h
+						err := w.cni.AssignIP(context.Background(), ipam.AssignIPArgs{IP: *cnet.ParseIP(ip), HandleID: &hh, Hostname: n,
+							Attrs: map[string]string{ipam.AttributeNode: n, ipam.AttributeType: tunnelType}, IntendedUse: apiv3.IPPoolAllowedUseTunnel})
+						w.logf("tunnel-reclaim %s %s err=%v", n, ip, err != nil)
+					}
+					return
+				}
 			}
 		}
 		ips := w.cniAssign("vxlan-tunnel-addr-"+n, n, map[string]string{ipam.AttributeNode: n, ipam.AttributeType: tunnelType}, false, apiv3.IPPoolAllowedUseTunnel)
@@ -592,9 +611,9 @@ func main() {
 		},
 		Run: run,
 		Floors: map[string]int64{
-			"syncs": 500, "released_addresses_judged": 150, "release_judged_against_api": 50, "grace_checks": 30, "bookkeeping_compares": 1500,
-			"block_updates_delivered": 2000, "multi_address_handle_checks": 5, "host_affinity_release_checks": 5, "tunnel_release_checks": 2,
-			"block_affinity_release_checks": 2, "stale_cache_would_release_live_address": 2,
+			"syncs": 500, "released_addresses_judged": 150, "release_judged_against_api": 130, "grace_checks": 100, "bookkeeping_compares": 900,
+			"block_updates_delivered": 1000, "multi_address_handle_checks": 35, "host_affinity_release_checks": 60, "tunnel_release_checks": 4,
+			"block_affinity_release_checks": 10, "stale_cache_would_release_live_address": 5, "syncer_resyncs": 50, "live_runs": 1,
 		},
 	})
 }
